@@ -134,7 +134,7 @@ theorem C08_h2c_no_body_replay (canRetryErr bodyNil afterBodyWrite : Bool) :
   cases canRetryErr <;> cases bodyNil <;> cases afterBodyWrite <;> decide
 
 /-! Non-vacuity: the bound is attained, a GET is retried after a read error, a POST is not. -/
-def cfg2 : Cfg := ⟨1, 1, 1, 0, 0, 0, [⟨"a", 1, false, [⟨true, 1⟩]⟩, ⟨"b", 0, false, [⟨true, 1⟩]⟩]⟩
+def cfg2 : Cfg := ⟨1, 1, 1, 0, 0, 0, [⟨"a", 1, false, [⟨true, 1⟩]⟩, ⟨"b", 0, false, [⟨true, 1⟩]⟩], 0⟩
 def entry (rq : ReqSpec) : LS := entryLS (G.init cfg2 1) rq []
 def allConnect : List Attempt := [⟨.goon, .connect⟩, ⟨.goon, .connect⟩, ⟨.goon, .connect⟩, ⟨.goon, .connect⟩]
 
